@@ -138,12 +138,16 @@ class Engine:
             prefix = todo.pop()
             self.decisions, self.cursor, self.pc, self.new_alts = list(prefix), 0, [], []
             self.pc = [self.range_cond(v, b) for (v, b) in self.declared.values()]
+            # facts about terms built on other paths are irrelevant here: axioms / CRC symbols / byte groups are per path
+            self.axioms, self._axiom_ids = [], {}
+            self.__dict__.pop("crc_reg", None)
             self.guards = []
             self.symdec = 0
             self.in_path = True
             try:
                 res = harness(self)
-                results.append((list(self.decisions), list(self.pc), res, self.symdec))
+                # the path condition carries the axioms (CRC / token facts) that were generated on this path
+                results.append((list(self.decisions), list(self.pc) + list(self.axioms), res, self.symdec))
             except PathEnd:
                 pass
             todo.extend(self.new_alts)
@@ -919,9 +923,22 @@ class Engine:
                 self.assign(item.optional_vars, v, env)
         try:
             self.block(s.body, env)
-        finally:
+        except ModelRaise as ex:
+            # __exit__(type, value, tb): a truthy return value suppresses the exception
+            suppressed = False
             for m in reversed(mgrs):
-                self.models.ctx_exit(self, m)
+                if self.branch(self.truth(self.models.ctx_exit(self, m, ex))):
+                    suppressed = True
+                    ex = None
+            if not suppressed:
+                raise
+        except BaseException:
+            for m in reversed(mgrs):
+                self.models.ctx_exit(self, m, None)
+            raise
+        else:
+            for m in reversed(mgrs):
+                self.models.ctx_exit(self, m, None)
 
     def iterate(self, it):
         if isinstance(it, (list, tuple, range, dict)):
